@@ -228,10 +228,23 @@ def run_property(pid: str, tier: str = "quick", seed: int = 0) -> int:
     # replay each violation against the real code
     vio_out = []
     printed = []
-    for idx, (ob, rec) in enumerate(violations):
-        payload = {"obligation": rec["obligation"], "path": rec["path"], "model": rec["model"], "info": rec["info"], "seed": seed}
-        rp = run_replay(pid, payload) if spec.replay is not False else {"confirmed": False, "reason": "no replay for this obligation"}
+    # one VIOLATION line per failed obligation name; further failing paths of the same obligation are
+    # listed inside the replay file (replay is attempted for up to three of them until one confirms)
+    grouped = {}
+    for ob, rec in violations:
+        grouped.setdefault(rec["obligation"], []).append((ob, rec))
+    for idx, (oname, group) in enumerate(grouped.items()):
+        ob, rec = group[0]
+        rp = {"confirmed": False, "reason": "no replay for this obligation"}
+        for (ob_i, rec_i) in group[:3]:
+            payload = {"obligation": rec_i["obligation"], "path": rec_i["path"], "model": rec_i["model"], "info": rec_i["info"], "seed": seed}
+            rp = run_replay(pid, payload) if spec.replay is not False else rp
+            if rp.get("confirmed"):
+                ob, rec = ob_i, rec_i
+                break
         rec["replay"] = rp
+        rec["other_failing_paths"] = [r["path"] for (_, r) in group if r is not rec][:20]
+        rec["failing_paths"] = len(group)
         safe = re.sub(r"[^A-Za-z0-9_.-]+", "_", rec["obligation"])[-120:]
         rpath = REPLAYS / f"{pid}_{idx}_{safe}.json"
         rpath.write_text(json.dumps(rec, indent=1, default=str))
@@ -299,7 +312,7 @@ def run_property(pid: str, tier: str = "quick", seed: int = 0) -> int:
                 return finish(1, "violation found by bounded stand-in")
             return finish(3, f"bounded stand-in failed to run: {[b['name'] for b in bad]}")
     if violations:
-        return finish(1, f"{len(violations)} failed obligation(s)")
+        return finish(1, f"{len(grouped)} failed obligation(s) on {len(violations)} path(s)")
     if by["unknown"]:
         ev["coverage"]["undecided_names"] = [ob.name for ob in by["unknown"]][:40]
         return finish(2, f"undecided: {len(by['unknown'])} obligation(s) left open by all back ends")
